@@ -935,7 +935,7 @@ impl CodegenContext {
                                 .unwrap_or_else(|| target_pc.into())
                                 + 2)
                             .as_i64();
-                            let mut offset = target_pc - cur_pc;
+                            let mut offset = target_pc.saturating_sub(cur_pc);
                             if (-128..=127).contains(&offset) {
                                 if offset < 0 {
                                     offset += 256;
